@@ -142,7 +142,7 @@ def _names(call):
 def plan(prop, tier):
     if tier == "thorough":
         return {"run_timeout": 1200, "mem_cap_gb": 0, "runs": 14000, "chunk": 100, "wall_cap": 1800, "selftest": 24, "shrink_wall": 900, "max_shrunk": 10, "ddmin_budget": 80}
-    return {"run_timeout": 1200, "mem_cap_gb": 0, "runs": 1100, "chunk": 20, "wall_cap": 300, "selftest": 6, "shrink_wall": 300, "max_shrunk": 8, "ddmin_budget": 60}
+    return {"run_timeout": 1200, "mem_cap_gb": 0, "runs": 1400, "chunk": 20, "wall_cap": 300, "selftest": 6, "shrink_wall": 300, "max_shrunk": 8, "ddmin_budget": 60}
 
 
 def call_sig(call):
@@ -219,7 +219,19 @@ def generate(prop, run_seed, tier):
         k = rng.choice([1, 1, 2, 2, 3] if tier == "quick" else [1, 2, 2, 3, 4])
         scripts.append([copy.deepcopy(hot[rng.randrange(len(hot))] if rng.random() < 0.85 else POOL[rng.randrange(len(POOL))]) for _ in range(k)])
     strat = rng.choice(["random", "random", "random", "pct", "pct", "cold", "cold", "cold", "serial"])
-    warm = rng.random() < 0.4
+    warm = rng.random() < 0.5
+    if warm and rng.random() < 0.6:
+        # same-call contention: every thread runs the SAME call a few times in warm code. Any per-call scratch state that
+        # lives at class or module level instead of on the instance is then written by several threads at once.
+        if rng.random() < 0.75:
+            c = POOL[rng.randrange(len(POOL))]
+        else:
+            from sim.corpus import corpus
+
+            d, q = rng.choice(corpus.STATEFUL + [(None, x) for x in corpus.SOFT_KEYWORDS])
+            c = T(q, d, rng.choice([d, d, "duckdb", "snowflake", "postgres"]))
+        k = rng.choice([1, 2, 3])
+        scripts = [[copy.deepcopy(c) for _ in range(k)] for _ in range(n)]
     if warm:
         strat = rng.choice(["random", "random", "random", "pct"])
     cfg = {
